@@ -2,7 +2,8 @@
 (* Behaviour generation for C04/C05/C19: call sequences of length D over the        *)
 (* boundary alphabet; the model state follows the accept branches.                   *)
 EXTENDS ExtTree, Json
-CONSTANTS MaxLen, D, Neg, WithAttr
+CONSTANTS MaxLen, D, Neg, WithAttr,
+          WithTrunc          \* include Truncate(p, n) for n around 0, the block boundary and the current length
 VARIABLES hist, tag
 gvars == <<vars, hist, tag>>
 Offs(p) == {0, 1, 3, 4, 5} \cup {Len(tree[p].data), Len(tree[p].data) + 1}
@@ -24,6 +25,10 @@ Next ==
      \/ \E p \in Files : CanWrite(p) /\ \E len \in {1, 4, 5} :
            /\ Len(tree[p].data) + len <= MaxLen
            /\ Go(TRUE, AppendT(p, len, tag)) /\ Log([a |-> "Append", p |-> p, len |-> len, tag |-> tag]) /\ tag' = tag + 1
+     \/ /\ WithTrunc
+        /\ \E p \in Files : CanWrite(p) /\ \E n \in {0, 1, CU, Len(tree[p].data) - 1, Len(tree[p].data) + 1, Len(tree[p].data) + CU + 1} :
+              /\ n >= 0 /\ n <= MaxLen + CU + 1 /\ n # Len(tree[p].data)
+              /\ Go(TRUE, TruncateT(p, n)) /\ Log([a |-> "Truncate", p |-> p, off |-> n]) /\ UNCHANGED tag
      \/ \E p \in Links, t \in Targets : (Neg \/ CanSymlink(p)) /\ Go(CanSymlink(p), SymlinkT(p, t)) /\ Log([a |-> "Symlink", p |-> p, t |-> t]) /\ UNCHANGED tag
      \/ \E p \in Paths : (CanRemove(p) \/ (Neg /\ p \in {"d", "a"})) /\ Go(CanRemove(p), RemoveT(p)) /\ Log([a |-> "Remove", p |-> p]) /\ UNCHANGED tag
      \/ /\ WithAttr
